@@ -199,6 +199,60 @@ func (c *checker) faultPass(name string, base bool, maxLen int, workers int) {
 	c.r.Set(name+"_seconds", time.Since(t0).Seconds())
 }
 
+// bigBatchPass: a fixed list of histories with a bulk append ('A' = 320 entries at height 1 in one batch,
+// ~37 KB, so the record is fragmented over two 32 KiB blocks); all crash points of all calls, full model.
+var bigBatchHistories = []string{"A f", "a1 f A f", "A f a2 f", "A f r a2 f", "A p1 f", "A f p1 f"}
+
+func (c *checker) bigBatchPass(workers int) {
+	t0 := time.Now()
+	rec0, img0 := c.recoveries.Load(), c.images.Load()
+	type job struct {
+		r  *run
+		ri int
+	}
+	var jobs []job
+	for _, hs := range bigBatchHistories {
+		r := c.execute(parseHist(hs), false, -1, 0, false)
+		c.histories.Add(1)
+		if n := int64(r.fs.NumOps()); n > c.maxOps.Load() {
+			c.maxOps.Store(n)
+		}
+		for ri := firstHistRow(r); ri < len(r.rows); ri++ {
+			if r.rows[ri].opEnd > r.rows[ri].opStart {
+				jobs = append(jobs, job{r, ri})
+			}
+		}
+	}
+	// one row's images are enumerated by one worker; split the rows further by op prefix
+	type pj struct {
+		r      *run
+		ri, p  int
+	}
+	var pjs []pj
+	for _, j := range jobs {
+		w := j.r.rows[j.ri]
+		for p := w.opStart + 1; p <= w.opEnd; p++ {
+			pjs = append(pjs, pj{j.r, j.ri, p})
+		}
+	}
+	var skipped atomic.Int64
+	ev.Par(len(pjs), workers, func(i int) {
+		if c.r.OutOfTime() {
+			skipped.Add(1)
+			return
+		}
+		c.crashCheckPrefix(pjs[i].r, pjs[i].ri, pjs[i].p, crashfs.Full, contWanted)
+	})
+	if skipped.Load() > 0 || c.r.OutOfTime() {
+		c.r.Incomplete(fmt.Sprintf("bigbatch: time budget hit, %d of %d crash points not enumerated (or cut short)", skipped.Load(), len(pjs)))
+	}
+	c.r.Set("bigbatch_histories", int64(len(bigBatchHistories)))
+	c.r.Set("bigbatch_crash_points", int64(len(pjs)))
+	c.r.Set("bigbatch_crash_images", c.images.Load()-img0)
+	c.r.Set("bigbatch_recoveries", c.recoveries.Load()-rec0)
+	c.r.Set("bigbatch_seconds", time.Since(t0).Seconds())
+}
+
 func TestCheck(t *testing.T) {
 	r := ev.Start("C14", "fault_enumeration")
 	r.SetBudget(ev.Pick(r, 150, 1620))
@@ -225,6 +279,9 @@ func TestCheck(t *testing.T) {
 		c.faultPass("base255_fault", true, baseFaultLen, workers)
 	}
 	c.faultPass("fault", false, faultLen, workers)
+	if envInt("C14_BIGBATCH", ev.Pick(r, 0, 1)) > 0 {
+		c.bigBatchPass(workers)
+	}
 	c.crashPass("crash", false, crashLen, workers)
 
 	rec := c.recoveries.Load()
